@@ -205,7 +205,7 @@ CHECKS = {
         level="model_checking",
         clauses={"immut-fp", "immut-data", "immut-query", "immut-source", "rows", "order", "names", "accept", "group"},
         phases=dict(quick=[dict(profile="imm3", opts=dict(immut=True)), dict(profile="core2", opts=dict(immut=True)),
-                           dict(profile="subq4", opts=dict(immut=True))],
+                           dict(profile="subq4", opts=dict(immut=True)), dict(profile="join2", opts=dict(immut=True))],
                     thorough=[dict(profile="core2", opts=dict(immut=True)), dict(profile="imm4", opts=dict(immut=True)), dict(profile="agg3", opts=dict(immut=True)), dict(profile="subq5", opts=dict(immut=True)),
                               dict(profile="wins3", opts=dict(immut=True)), dict(profile="join2", opts=dict(immut=True))]),
     ),
